@@ -137,6 +137,13 @@ def temporal_value(tkey, s, nsteps):
 
 
 def run_case(task):
+    try:
+        return _run_case(task)
+    except Exception as ex:      # noqa: BLE001
+        return {'bad': [('raised', repr(ex)[:200])], 'final': None}
+
+
+def _run_case(task):
     from aurel import time as atime
     seed, nsteps, perm, tkey, partition, extra = task
     bad = []
